@@ -859,6 +859,80 @@ fn stress_first_use_of_shared_key(pr: &PropRun) -> LaneReport {
     rep
 }
 
+/// Free-running stress: clear() while another thread is inside the registry — in the closure of a get_or_create_* on
+/// an existing key, or in the closure of a visit_*, i.e. holding one shard's lock. Nothing is created meanwhile, so
+/// once both have returned the registry holds no entry of any kind: clear removes every entry, it does not skip a
+/// shard that happened to be busy.
+fn stress_clear_vs_lock_holder(pr: &PropRun) -> LaneReport {
+    use std::sync::atomic::AtomicBool;
+    let start = std::time::Instant::now();
+    let mut rep = LaneReport::named("stress-clear-while-a-shard-is-held");
+    let rounds = pr.cfg.cases(300, 10_000);
+    let mut bad: Option<(String, String)> = None;
+    for round in 0..rounds {
+        let shared = Arc::new(Shared::default());
+        let registry: Registry<Key, CountingStorage> = Registry::new(CountingStorage(shared.clone()));
+        let kind = (round % 3) as u8;
+        let in_visit = round / 3 % 2 == 1;
+        let nkeys = 10usize;
+        let keys: Vec<Key> = (0..nkeys).map(|i| Key::from_parts("held", vec![metrics::Label::new("k", i.to_string())])).collect();
+        for k in &keys {
+            for kd in 0..3u8 {
+                let _: u64 = by_kind!(kd, registry, get_or_create_counter, get_or_create_gauge, get_or_create_histogram, k, |s| s.value.fetch_add(1, Ordering::SeqCst));
+            }
+        }
+        let inside = AtomicBool::new(false);
+        let hold = || {
+            inside.store(true, Ordering::Release);
+            let t0 = std::time::Instant::now();
+            while t0.elapsed() < std::time::Duration::from_micros(150) {
+                std::hint::spin_loop();
+            }
+        };
+        std::thread::scope(|s| {
+            let (registry, keys, hold) = (&registry, &keys, &hold);
+            s.spawn(move || {
+                if in_visit {
+                    let mut first = true;
+                    let mut f = |_: &Key, _: &Arc<Slot>| {
+                        if first {
+                            first = false;
+                            hold();
+                        }
+                    };
+                    by_kind!(kind, registry, visit_counters, visit_gauges, visit_histograms, &mut f);
+                } else {
+                    let _: u64 = by_kind!(kind, registry, get_or_create_counter, get_or_create_gauge, get_or_create_histogram, &keys[(round as usize) % nkeys], |s| {
+                        hold();
+                        s.value.load(Ordering::SeqCst)
+                    });
+                }
+            });
+            while !inside.load(Ordering::Acquire) {
+                std::hint::spin_loop();
+            }
+            registry.clear();
+        });
+        let left = (registry.get_counter_handles().len(), registry.get_gauge_handles().len(), registry.get_histogram_handles().len());
+        let mut ctx = Ctx::default();
+        ctx.fingerprint = Some(round);
+        ctx.nontrivial("clear-issued-while-another-thread-holds-a-shard");
+        if round == 0 {
+            ctx.desc = Some(format!("{} keys under all three kinds; one thread sits for 150 us inside the closure of get_or_create_* (existing key) or visit_*, the other calls clear()", nkeys));
+        }
+        rep.account(ctx);
+        if left != (0, 0, 0) {
+            bad = Some(("clear-left-entries-behind".into(), format!("round {}: clear() was called while another thread was inside {} of kind {} and has returned, nothing was created meanwhile, yet the registry still lists (counters, gauges, histograms) = {:?}", round, if in_visit { "a visit_* closure" } else { "the closure of a get_or_create_* on an existing key" }, kind, left)));
+            break;
+        }
+    }
+    if let Some((sig, msg)) = bad {
+        rep.violations.push(Violation { lane: "stress-clear-while-a-shard-is-held".into(), sig, msg, bytes: vec![], sched: vec![], decoded: "free-running threads (not deterministically replayable)".into() });
+    }
+    rep.wall_s = start.elapsed().as_secs_f64();
+    rep
+}
+
 /// Child process: the sequential lane under a CPU affinity mask (1/2/4/16 shards).
 pub fn child(seed: u64) -> i32 {
     let ncpu = [1usize, 2, 4, 16][(seed % 4) as usize];
@@ -914,6 +988,8 @@ pub fn run(cfg: &RunCfg, replay: Option<&str>) -> i32 {
     let r = stress_create_vs_sweep(&pr);
     pr.push(r);
     let r = stress_first_use_of_shared_key(&pr);
+    pr.push(r);
+    let r = stress_clear_vs_lock_holder(&pr);
     pr.push(r);
     let r = crate::engine::child::run_children(&pr, "C06", "shard-count-processes", pr.cfg.cases(16, 400), |seed| format!("sequential lane with CPU affinity to {} cpus", [1, 2, 4, 16][(seed % 4) as usize]));
     pr.push(r);
